@@ -1,6 +1,6 @@
 """C11 — CVec is observationally a Vec.
 Case format: '11 <elem> [1 = foreign stored functions] | op ; op ; ...'  elem: 0=1-byte 1=8-byte 2=heap-owning(Box) 3=zero-sized 4=3-byte 5=64 bytes aligned to 64 6=8 bytes whose Clone panics for values ending in 13;
-ops: '0 x' push, '1' pop, '2 i x' insert, '3 i' remove, '4 n' reserve, '5' clone-and-replace (old dropped),
+ops: '0 x' push, '1' pop, '2 i x' insert, '3 i' remove, '4 n' reserve, '5' clone-and-replace (old dropped), '5 1 n' the same through Clone::clone_from onto a destination of n elements,
 '6 i x' v[i]=x, '7 spare x..' replace by CVec::from(Vec with spare capacity), '8' read.
 Output rows come in pairs per op: result row ('.. 9' = panicked) and the values whose destructor ran, in order;
 the trailer '99 ; ..' is the final drop.  Monitor (model independent): contents/len equal to std::Vec after every
@@ -19,6 +19,7 @@ TRUSTED = [
 ASSUMPTIONS = ["Vec::reserve honours its documented contract", "rustc code generation, the system allocator"]
 
 ALPHA = [[0, 11], [0, 12], [1], [2, 0, 21], [2, 1, 22], [2, 5, 23], [3, 0], [3, 1], [3, 7], [4, 3], [5], [6, 0, 31], [6, 4, 32], [8]]
+CLONE_FROM = [[5, 1, 0], [5, 1, 1], [5, 1, 5], [5, 1, 11]]      # clone_from onto destinations shorter and longer than the source
 ELEMS = [0, 1, 2, 3, 4, 5, 6]
 
 
@@ -44,7 +45,10 @@ def line(elem, ops):
 
 
 def model_line(l):
-    return l
+    # '5 1 n' (Clone::clone_from onto a destination of n elements, which then takes the vector's place) is the model's clone step; the destination's
+    # own elements show up in the destructor row of the implementation only (checked by the harness against what std::Vec destroys)
+    hdr, body = l.split("|", 1)
+    return hdr + "| " + " ; ".join(" ".join(o.split()[:1]) if o.split()[:2] == ["5", "1"] else o.strip() for o in body.split(";"))
 
 
 def exhaustive(elem, maxlen):
@@ -85,7 +89,7 @@ def random_script(rng, maxlen, elem):
         elif r < 78:
             ops.append([4, rng.choice([0, 1, 2, 5, 17, 100])])
         elif r < 82:
-            ops.append([5])
+            ops.append([5] if rng.chance(1, 2) else [5, 1, rng.range(0, 11)])
         elif r < 90:
             ops.append([6, idx, rng.range(0, vmax)])
         elif r < 93:
@@ -112,6 +116,11 @@ def gen_cases(rng, tier):
     for e, n in ex.items():
         cases += exhaustive(e, n)
     dist["exhaustive_cases"] = len(cases)
+    # clone_from onto destinations shorter and longer than the source, after pushes of 0..6 elements
+    for e in ELEMS:
+        for npush in range(0, 7):
+            for cf in CLONE_FROM:
+                cases.append(line(e, [[0, 10 + i] for i in range(npush)] + [cf, [8], [0, 77], [8]]))
     opk = {}
     for k in range(nrand):
         e = ELEMS[k % len(ELEMS)]
